@@ -1,6 +1,7 @@
 import CpModel.Proto
 import CpModel.Ranges
 import CpModel.Validators
+import CpModel.CondFlow
 /-!
   Driver for C16.  One case per line.
 
@@ -10,7 +11,10 @@ import CpModel.Validators
 
     E <hdr>                             elementsSimple(hdr)  -> texts joined by '/'   ([] when empty)
 
-    Q kind method proto known base callSince etagsOn autotags hEtag autoTag lastmod im inm ims ius range content boundary ctype
+    Q kind method proto known base callSince etagsOn autotags hEtag autoTag lastmod im inm ims ius range content boundary ctype stream script emptyTag
+        (answered by `CondFlow.respondX`; `callSince` only feeds the legacy field of `Req`)
+        stream = 0|1 (response.stream)   script = - | letters B (set body) S (validate_since) E (validate_etags())
+        A (validate_etags(autotags=True)): what a `gen` handler does, in order   emptyTag = text ('"md5(b'')"')
         kind = file|gen   method = GET|HEAD|…   proto = 10|11   known = 0|1 (entity length known)   base = status   flags = 0|1
         hEtag, lastmod, ims, ius, range = N | text;  autoTag = text
         im, inm = [] | text/text/…
@@ -19,7 +23,7 @@ import CpModel.Validators
         multipart the exact body bytes are rendered and `:m<len>:<adler32>` is appended to body=
         -> s=<status> cr=<N|*/t|a-b/t> cl=<N|n> etag=<N|text> body=<empty|err|b:<len>:<adler32>|p:a-b/t:<len>:<adler32>;…>
 -/
-open CpModel CpModel.Ranges CpModel.Validators
+open CpModel CpModel.Ranges CpModel.Validators CpModel.CondFlow
 
 namespace Drv.C16
 
@@ -73,15 +77,28 @@ def showBody : Body → String
 def showResp (x : Resp) : String :=
   s!"s={x.status} cr={showCR x.contentRange} cl={Proto.showOptNat x.contentLength} etag={showOptText x.etag} body={showBody x.body}"
 
-def parseQ : List String → Option (Req × Option Text × Text)
+def step? : Char → Option Step
+  | 'B' => some .body
+  | 'S' => some .since
+  | 'E' => some (.etags false)
+  | 'A' => some (.etags true)
+  | _ => none
+
+def script? (s : String) : Option (List Step) :=
+  if s == "-" then some [] else s.toList.mapM step?
+
+def parseQ : List String → Option (ReqX × Option Text × Text)
   | [kind, method, proto, known, base, callSince, etagsOn, autotags, hEtag, autoTag, lastmod, im, inm,
-     ims, ius, range, content, boundary, ctype] => do
+     ims, ius, range, content, boundary, ctype, stream, script, emptyTag] => do
+    let stream ← flag? stream
+    let script ← script? script
+    let emptyTag ← Proto.untext? emptyTag
     let boundary ← optText? boundary
     let ctype ← Proto.untext? ctype
     let kind ← if kind == "file" then some Kind.file else if kind == "gen" then some Kind.gen else none
     let proto11 ← if proto == "11" then some true else if proto == "10" then some false else none
     let base ← base.toNat?
-    pure ({
+    pure (⟨{
       kind := kind
       getHead := method == "GET" || method == "HEAD"
       isHead := method == "HEAD"
@@ -99,7 +116,7 @@ def parseQ : List String → Option (Req × Option Text × Text)
       ims := ← optText? ims
       ius := ← optText? ius
       range := ← optText? range
-      content := ← content? content }, boundary, ctype)
+      content := ← content? content }, stream, script, emptyTag⟩, boundary, ctype)
   | _ => none
 
 def step (line : String) : String :=
@@ -115,7 +132,7 @@ def step (line : String) : String :=
   | "Q" :: rest =>
     match parseQ rest with
     | some (r, boundary, ctype) =>
-      let x := respond r
+      let x := respondX r
       let extra := match x.body, boundary with
         | .parts ps, some b =>
           let m := renderMultipart (ascii b) (ascii ctype) ps
